@@ -55,8 +55,11 @@ def run(ctx):
         raise AnalysisError("get_interpolation no longer returns (pixels, length)")
     length = ret[1][1]
     k = ("bv", 1)
-    seg = T.call("numpy.linalg.norm", (T.sub(T.call("numpy.array", (T.idx(pairs, T.sub(k, T.num(1))),)), T.call("numpy.array", (T.idx(pairs, k),))),))
-    want_len = ("sum", seg, k, T.call("range", (T.num(1), T.call("len", (pairs,)))), T.TRUE)
+    # canonical forms (sym.canon_loop): consecutive points are P[k], P[k+1] for k in range(len(P) - 1), however the loop is spelled
+    # (range(1, n) with k-1 / k, zip(P, P[1:])); an array conversion of an existing sequence is the identity on its values
+    seg = T.call("numpy.linalg.norm", (T.sub(T.idx(pairs, k), T.idx(pairs, T.add(k, T.num(1)))),))
+    steps = T.call("range", (T.sub(T.call("len", (pairs,)), T.num(1)),))
+    want_len = ("sum", seg, k, steps, T.TRUE)
     ctx.clause("integrated: band pixels are a set (distinct), length is the polyline length of the transformed points")
     rules.decide_equal(ctx, "FORM", f"{h.qualname} / FORM / length = sum of |P[k-1] - P[k]| over the transformed polyline", ctx.where(h), length, want_len, "polyline length")
     pix = ret[1][0]
@@ -65,10 +68,10 @@ def run(ctx):
     if is_set:
         arg, L = pix[2][1], pix[2][2]
         ceil = ("mod", "math.ceil")
-        a0 = T.call("list", (T.call("map", (ceil, T.idx(pairs, T.sub(L, T.num(1))))),))
-        a1 = T.call("list", (T.call("map", (ceil, T.idx(pairs, L))),))
-        a0b, a1b = T.call("map", (ceil, T.idx(pairs, T.sub(L, T.num(1))))), T.call("map", (ceil, T.idx(pairs, L)))
-        rng_ok = T.alpha(pix[2][3]) == T.alpha(T.call("range", (T.num(1), T.call("len", (pairs,)))))
+        a0 = T.call("list", (T.call("map", (ceil, T.idx(pairs, L))),))
+        a1 = T.call("list", (T.call("map", (ceil, T.idx(pairs, T.add(L, T.num(1))))),))
+        a0b, a1b = T.call("map", (ceil, T.idx(pairs, L))), T.call("map", (ceil, T.idx(pairs, T.add(L, T.num(1)))))
+        rng_ok = T.alpha(pix[2][3]) == T.alpha(steps)
         walk_ok = rng_ok and T.alpha(arg) in (T.alpha(T.call(f"{MY}.walk_two_vertices", (a0, a1, lay2))), T.alpha(T.call(f"{MY}.walk_two_vertices", (a0b, a1b, lay2))))
     ctx.check(is_set and walk_ok, "FORM", f"{h.qualname} / FORM / pixels = set union of walk_two_vertices(ceil(P[k-1]), ceil(P[k]), layers)", ctx.where(h),
               "a set, so every band pixel is counted once", f"band pixels are {T.show(T.alpha(pix))[:200]}")
